@@ -31,5 +31,13 @@ def mmul (a b : List (List CF)) : List (List CF) :=
 def sigmax : List (List CF) := [[⟨0,0⟩, ⟨1,0⟩], [⟨1,0⟩, ⟨0,0⟩]]
 def sigmay : List (List CF) := [[⟨0,0⟩, ⟨0,-1⟩], [⟨0,1⟩, ⟨0,0⟩]]
 def sigmaz : List (List CF) := [[⟨1,0⟩, ⟨0,0⟩], [⟨0,0⟩, ⟨-1,0⟩]]
+def ident2 : List (List CF) := [[⟨1,0⟩, ⟨0,0⟩], [⟨0,0⟩, ⟨1,0⟩]]
+/-- `fock_dm(2, 0)`, `fock_dm(2, 1)` -/
+def fock0 : List (List CF) := [[⟨1,0⟩, ⟨0,0⟩], [⟨0,0⟩, ⟨0,0⟩]]
+def fock1 : List (List CF) := [[⟨0,0⟩, ⟨0,0⟩], [⟨0,0⟩, ⟨1,0⟩]]
+def madd (a b : List (List CF)) : List (List CF) := List.zipWith (List.zipWith (· + ·)) a b
+/-- `tensor(a, b)`: Kronecker product, first factor most significant -/
+def kron2 (a b : List (List CF)) : List (List CF) :=
+  a.flatMap fun ra => b.map fun rb => ra.flatMap fun x => rb.map fun y => x * y
 end CF
 end QipVerif
